@@ -5,7 +5,7 @@ random schedules (single node between controlled source(s) and sink), model-free
 clauses on the same traces and on random multi-node chains."""
 import json, os, random, sys, time
 sys.path.insert(0, os.path.dirname(os.path.abspath(__file__)))
-import common, asyncfam, asyncrun, asyncoracle, asyncchain
+import common, asyncfam, asyncrun, asyncoracle, asyncchain, threadfam
 
 ALL_KINDS = ["buffer", "delay", "rate_limit", "timed_window", "timed_window_unique", "partition", "zip",
              "map_async", "latest", "plain"]
@@ -63,7 +63,7 @@ def shrink(case, still):
 
 def single_node_part(prop, oprop, tier, rng, out, known, cov):
     n_per_kind = {"quick": 120, "thorough": 1500}[tier]
-    g = asyncrun.AGen(rng, max_actions=16 if tier == "quick" else 40)
+    g = asyncrun.AGen(rng, max_actions=16 if tier == "quick" else 40, mix=True)
     co = []
     kinds_hist = {}
     nontriv = set()
@@ -98,8 +98,8 @@ def single_node_part(prop, oprop, tier, rng, out, known, cov):
                     out.violation(sig, msg, {"case": shrink(c, still), "family": "async-single"})
                 nfind += 1
                 break
-    # correspondence (cases with a burst have no model action: oracle only)
-    modelled = [(c, o) for (c, o) in co if c["node"]["k"] in asyncrun.MODELS and not any(a[0] in ("burst", "seq", "chain") for a in c["actions"])]
+    # correspondence (cases with a burst / mix have no model action: oracle only)
+    modelled = [(c, o) for (c, o) in co if c["node"]["k"] in asyncrun.MODELS and not any(a[0] in ("burst", "seq", "chain", "mix") for a in c["actions"])]
     mism, errors = asyncrun.correspondence(prop, modelled)
     for p_, o_ in errors:
         out.violation("%s/correspondence-error" % prop, "coqc failed on generated cases: %s" % o_[-400:], {"file": p_}, no_input=True)
@@ -141,6 +141,34 @@ def chain_part(prop, oprop, tier, rng, out, known, cov):
         cov.setdefault("samples", []).append(res["samples"][0])
 
 
+def thread_part(prop, oprop, tier, rng, out, known, cov):
+    """threaded operation: loop in a background thread, blocking emits from several producer threads (oracle only)"""
+    if oprop not in ("C02", "C03"):
+        return
+    n = {"quick": 60, "thorough": 900}[tier]
+    nfind = 0
+    hist = {}
+    for _ in range(n):
+        c = threadfam.gen_case(rng)
+        hist[c["node"]["k"]] = hist.get(c["node"]["k"], 0) + 1
+        try:
+            r = threadfam.run_case(c)
+            fs = threadfam.check(c, r, want=(oprop,))
+        except Exception as e:
+            fs = [(oprop, "%s/threaded/harness-crash" % oprop, "threaded driver crashed: %r" % (e,))]
+        for (p, sig, msg) in fs:
+            if sig in known:
+                out.known_finding(sig, known[sig]["what"])
+                continue
+            if nfind < 3:
+                out.violation(sig, msg, {"case": c, "family": "threaded"})
+            nfind += 1
+    cov["threaded_evaluations"] = n
+    cov["threaded_node_histogram"] = hist
+    cov["evaluations"] = cov.get("evaluations", 0) + n
+    cov["distinct_nontrivial"] = cov.get("distinct_nontrivial", 0) + n
+
+
 def run(prop, tier, seed, replay=None, extra=None):
     """prop: property id; the asynchronous part of C05 is invoked by check_sync with extra outcome."""
     oprop = {"C05": "C05A", "C10": "C10A"}.get(prop, prop)
@@ -152,7 +180,14 @@ def run(prop, tier, seed, replay=None, extra=None):
     if replay:
         rp = json.load(open(replay))["replay"]
         c = rp["case"]
-        if rp.get("family") == "async-chain":
+        if rp.get("family") == "threaded":
+            for _rep in range(5):
+                fs = threadfam.check(c, threadfam.run_case(c), want=(oprop,))
+                for (p, sig, msg) in fs:
+                    (out.known_finding(sig, known[sig]["what"]) if sig in known else out.violation(sig, msg, {"case": c, "family": "threaded"}))
+                if fs:
+                    break
+        elif rp.get("family") == "async-chain":
             for (p, sig, msg) in asyncchain.check_one(c, oprop):
                 sig = sig.replace("C05A", "C05")
                 (out.known_finding(sig, known[sig]["what"]) if sig in known else out.violation(sig, msg, {"case": c, "family": "async-chain"}))
@@ -165,12 +200,15 @@ def run(prop, tier, seed, replay=None, extra=None):
     else:
         single_node_part(prop, oprop, tier, rng, out, known, cov)
         chain_part(prop, oprop, tier, rng, out, known, cov)
+        thread_part(prop, oprop, tier, rng, out, known, cov)
         if prop == "C04" and extra is None:
             import check_sync
             cov["sync_part"] = check_sync.embedded(prop, tier, seed, out, known, want=("C04",))
         cov["rule"] = ("single asynchronous node between controlled source(s) and a controlled or synchronous sink on a stepped virtual-time loop; "
                        "random schedules of emit / consumer-completion / task-completion / time-advance followed by a drain phase; plus random chains of "
-                       "synchronous and asynchronous nodes (oracle only); non-trivial = at least one delivery; distinct by JSON of the case")
+                       "synchronous and asynchronous nodes (oracle only); schedules with several sub-actions between two quiescent points ('mix': same "
+                       "callback, adjacent callbacks, k loop turns apart; oracle only); for C02/C03 threaded operation (loop in a background thread, "
+                       "blocking emits from 1-3 producer threads, consumer completions singly or several in one callback; oracle only); non-trivial = at least one delivery; distinct by JSON of the case")
     if extra is not None:
         return cov
     if not proof["ok"]:
